@@ -547,6 +547,85 @@ def r7(k: Kit) -> None:
                   g.describe_path(w) if w else None)
 
 
+def r8(k: Kit) -> None:
+    """v3 open flags -> v5/v6 disposition keeps their meaning."""
+    rep = k.rep
+    idx = k.idx
+    rep.rule('C12.R8', '_pflags_to_flags evaluated for all 64 combinations '
+             'of READ/WRITE/APPEND/CREAT/TRUNC/EXCL: the v5/v6 disposition '
+             'truncates iff TRUNC was asked for, creates iff CREAT, is '
+             'CREATE_NEW iff CREAT|EXCL, appends iff APPEND, and the access '
+             'mask carries read / write exactly as requested (a \'wb\' open '
+             'over a longer file must truncate it on every protocol version)')
+    fi = k.func('sftp._pflags_to_flags')
+    C = lambda n_: idx.const('sftp', n_)
+    names = ('FXF_READ', 'FXF_WRITE', 'FXF_APPEND', 'FXF_CREAT', 'FXF_TRUNC',
+             'FXF_EXCL', 'FXF_ACCESS_DISPOSITION', 'FXF_CREATE_NEW',
+             'FXF_CREATE_TRUNCATE', 'FXF_OPEN_EXISTING', 'FXF_OPEN_OR_CREATE',
+             'FXF_TRUNCATE_EXISTING', 'FXF_APPEND_DATA', 'ACE4_READ_DATA',
+             'ACE4_WRITE_DATA', 'ACE4_APPEND_DATA')
+    c = {n_: C(n_) for n_ in names}
+    if any(not isinstance(v, int) for v in c.values()):
+        rep.error('C12.R8', 'constants', 'flag constants not foldable')
+        return
+    body = [st for st in fi.node.body if not (
+        isinstance(st, ast.Expr) and isinstance(st.value, ast.Constant))]
+    bad = None
+    n = 0
+    for bits in range(64):
+        pf = 0
+        for i, nm in enumerate(names[:6]):
+            if bits >> i & 1:
+                pf |= c[nm]
+        n += 1
+        try:
+            o = evaluate(idx, fi.module, body, {}, {'pflags': pf},
+                         lambda a, b, e: Obj('x'))
+        except NotEvaluable as exc:
+            rep.error('C12.R8', 'not-evaluable', str(exc))
+            return
+        if o.kind != 'return' or not isinstance(o.value, tuple) or \
+                len(o.value) != 2 or not all(isinstance(x, int)
+                                             for x in o.value):
+            bad = bad or f'pflags {pf:#x}: result {o.value!r} not concrete'
+            continue
+        access, flags = o.value
+        disp = flags & c['FXF_ACCESS_DISPOSITION']
+        creat = bool(pf & c['FXF_CREAT'])
+        trunc = bool(pf & c['FXF_TRUNC'])
+        excl = bool(pf & c['FXF_EXCL'])
+        creates = disp in (c['FXF_CREATE_NEW'], c['FXF_CREATE_TRUNCATE'],
+                           c['FXF_OPEN_OR_CREATE'])
+        truncs = disp in (c['FXF_CREATE_TRUNCATE'],
+                          c['FXF_TRUNCATE_EXISTING'])
+        what = None
+        if creates != creat:
+            what = 'creates' if creates else 'does not create'
+        elif creat and excl and disp != c['FXF_CREATE_NEW']:
+            what = 'is not CREATE_NEW for CREAT|EXCL'
+        elif not (creat and excl) and disp == c['FXF_CREATE_NEW']:
+            what = 'fails on an existing file without EXCL'
+        elif not (creat and excl) and truncs != trunc:
+            what = 'truncates' if truncs else \
+                'does not truncate an existing file'
+        elif bool(flags & c['FXF_APPEND_DATA']) != bool(pf & c['FXF_APPEND']):
+            what = 'append flag differs'
+        elif bool(access & c['ACE4_READ_DATA']) != bool(pf & c['FXF_READ']) \
+                or bool(access & c['ACE4_WRITE_DATA']) != \
+                bool(pf & c['FXF_WRITE']):
+            what = 'access mask differs from READ/WRITE'
+        if what:
+            bad = bad or (f'pflags {pf:#04x} (CREAT={creat} TRUNC={trunc} '
+                          f'EXCL={excl}) maps to disposition {disp}: {what}')
+    rep.count('eval.pflags_cases', n)
+    rep.check(bad is None, 'C12.R8', key(fi, 'open flag table'),
+              f'{n} flag combinations keep their meaning on v5/v6',
+              f'{bad}: on an SFTPv5/v6 session the file is opened with other '
+              'semantics than on v3 (e.g. \'wb\' leaves the old tail of a '
+              'longer file) and the transfer still reports success',
+              fi.loc(fi.node))
+
+
 def run(idx, rep, tier):
     k = Kit(idx, rep)
     rep.assumptions += NOT_DECIDED
@@ -557,3 +636,4 @@ def run(idx, rep, tier):
     r5(k)
     r6(k)
     r7(k)
+    r8(k)
